@@ -28,7 +28,10 @@ fn read_lines<R: BufRead>(reader: R, args: &Args, planes: &mut Planes) -> Result
 
     let mut app_state = AppCounters::from_update_interval(args.update);
 
-    for line in reader.lines().map_while(Result::ok) {
+    for line in reader.split(b'\n').map_while(Result::ok) {
+        // a line may contain bytes that are not valid UTF-8 (binary garbage, Beast frames);
+        // such a line is just another malformed line, it must not end the reading
+        let line = String::from_utf8_lossy(&line);
         let Some(message) = get_message(&line) else {
             continue;
         };
